@@ -386,6 +386,19 @@ def run(ctx):
                     items.append((m_, py_xkey(m_, 'from_wif')))
         cmp_b58check(items, kind)
 
+    # the same for addresses: a right checksum over a payload of the wrong length or with an unknown version byte
+    cases_s = []
+    for s_ in addr58[:12 if T else 4]:
+        raw = b58dec_h(s_)[:-4]
+        for e_ in (raw[:-1], raw + b'\x00', raw[:1] + raw[2:], raw[:1], b'\x07' + raw[1:], raw[:1] + b'\x00' * 12 + raw[1:]):
+            m_ = restamp(e_)
+            if not ok_token(m_):
+                continue
+            ctx.count('structural-mutant:address')
+            cases_s.append(('addr58pkh ' + m_, py_addr58pkh(m_), True))
+            cases_s.append(('addr58 ' + m_, py_addr58(m_), True))
+            cases_s.append(('address ' + m_, py_address(m_), True))
+    ctx.compare(cases_s, 'structural', refusal_ok=True)
     structural(wifs[:12 if T else 4], 'wif')
     structural(xkeys[:12 if T else 4], 'xkey')
     # every generated valid string of the Base58Check classes is decoded at least once (the mutant sweeps below take a subset)
